@@ -75,6 +75,7 @@ func (w *worker) close() {
 
 type prog struct {
 	reportedInternal, reportedHeadPart bool // once per program
+	nsib                               int
 	c                                  *ev.Ctx
 	w                                  *worker
 	id                                 string
@@ -306,6 +307,9 @@ func (p *prog) run() {
 	if r.Intn(3) == 0 && !p.dead {
 		p.sparseSmall()
 	}
+	if r.Intn(3) == 0 && !p.dead {
+		p.dirSibling()
+	}
 	for s := n0; s < steps && !p.dead; s++ {
 		p.randomStep()
 	}
@@ -463,6 +467,53 @@ func (p *prog) sparseSmall() {
 		list = append(list, s3c.Part{N: n, ETag: u.parts[n].etag})
 	}
 	p.doComplete(u, completeCase{variant: "sparse-numbers-small-parts", list: list})
+}
+
+// dirSibling: the key "x" and the explicit directory object "x/" are two keys. Completing an upload of "x" while the
+// empty directory object "x/" exists either fails (as PutObject of "x" does) or leaves "x/" in place with its
+// metadata: a completion touches the key it names and no other.
+func (p *prog) dirSibling() {
+	p.nsib++
+	key := fmt.Sprintf("dsib%d", p.nsib)
+	cl := p.cl
+	if r := cl.PutObject(p.bucket, key+"/", nil, "X-Amz-Meta-Kind", "directory"); !r.OK() {
+		p.c.Observe("directory object refused: " + r.String())
+		return
+	}
+	id, r := cl.CreateMPU(p.bucket, key)
+	if !r.OK() {
+		cl.DeleteObject(p.bucket, key+"/")
+		p.c.Distinct(fmt.Sprintf("dir-sibling|create-refused|%d", r.Status))
+		return
+	}
+	body := p.bytes(100 + p.r.Intn(900))
+	r1 := cl.UploadPart(p.bucket, key, id, 1, body)
+	var rc *s3c.Resp
+	if r1.OK() {
+		rc = cl.CompleteMPU(p.bucket, key, id, []s3c.Part{{N: 1, ETag: strings.Trim(r1.Header.Get("Etag"), `"`)}})
+	}
+	p.kinds["complete-beside-directory-object"] = true
+	p.c.Eval(1)
+	h := cl.Do(&s3c.Req{Method: "HEAD", Path: s3c.ObjPath(p.bucket, key+"/")})
+	p.logf("dir-sibling %s/: upload part -> %s, complete -> %v, HEAD %s/ -> %s", key, r1, rc, key, h)
+	switch {
+	case r1.Err != nil || (rc != nil && rc.Err != nil) || h.Err != nil:
+		p.dead = true
+		return
+	case rc != nil && rc.OK() && !bytes.Contains(rc.Body, []byte("<Error>")) && (h.Status != 200 || h.Header.Get("X-Amz-Meta-Kind") != "directory"):
+		p.viol("complete:removed-the-directory-object-beside-its-key", map[string]any{"key": key, "complete": rc.String(), "head_of_directory_object_afterwards": h.String()})
+	case h.Status != 200:
+		p.viol("complete:refused-but-directory-object-beside-its-key-gone", map[string]any{"key": key, "upload_part": r1.String(), "head_of_directory_object_afterwards": h.String()})
+	default:
+		st := r1.Status
+		if rc != nil {
+			st = rc.Status
+		}
+		p.c.Distinct(fmt.Sprintf("dir-sibling|%d", st))
+	}
+	cl.AbortMPU(p.bucket, key, id)
+	cl.DeleteObject(p.bucket, key)
+	cl.DeleteObject(p.bucket, key+"/")
 }
 
 func (p *prog) opCreate(key string) {
